@@ -223,6 +223,26 @@ def correspond(ctx, scale):
                 if not torch.allclose(ot, oe, atol=2e-6, rtol=1e-6):
                     failures.append({'key': f'lfq:train-value:{act_name}', 'what': f'LFQ(scale={scale_}, spherical={sph}, straight_through_activation={act_name}): the training-mode output differs from the evaluation-mode '
                                      f'+-scale value by {(ot - oe).abs().max().item():g}', 'case': dict(scale=scale_, spherical=sph, activation=act_name)})
+        # a caller that accumulates IN PLACE into the tensors a call returned (a logging loop over the loss breakdown) must not be able to move
+        # the quantization threshold: the scalar map is a function of the input alone
+        qh = LFQ(codebook_size=4, dim=2, codebook_scale=scale_)
+        xh = torch.tensor([core.f32(rng.uniform(-3, 3)) for _ in range(2 * 6 * 2)]).reshape(2, 6, 2)
+        with torch.no_grad():
+            qh.eval()
+            ref_q = qh(xh).quantized.clone()
+            for tr in (True, False):
+                qh.train(tr)
+                ret_h, bd_h = qh(xh, return_loss_breakdown=True)
+                for tens in list(bd_h) + [ret_h.entropy_aux_loss]:
+                    if isinstance(tens, torch.Tensor) and tens.dtype.is_floating_point and not tens.requires_grad:
+                        tens.add_(1.5)
+            qh.eval()
+            after_q = qh(xh).quantized
+        dist['lfq_caller_inplace_histories'] = dist.get('lfq_caller_inplace_histories', 0) + 1
+        ev += 1
+        if not torch.equal(ref_q, after_q):
+            failures.append({'key': 'lfq:threshold-moved-by-caller-inplace', 'what': f'LFQ(scale={scale_}): after the caller added in place to the returned loss-breakdown tensors, '
+                             f'{int((ref_q != after_q).sum())} of {ref_q.numel()} scalars quantize differently', 'case': dict(scale=scale_)})
         # spherical: the same sign pattern, scaled to the sphere
         d = 3
         qs = LFQ(codebook_size=2 ** d, dim=d, codebook_scale=scale_, spherical=True)
